@@ -208,7 +208,11 @@ class LexInterp:
             for s, t in self.cond(e.test, st):
                 res.extend(self.ev(e.body if t else e.orelse, s))
             return res
-        if isinstance(e, (ast.BoolOp, ast.Compare, ast.UnaryOp)):
+        if isinstance(e, ast.UnaryOp) and isinstance(e.op, (ast.USub, ast.UAdd)):
+            if isinstance(e.operand, ast.Constant) and isinstance(e.operand.value, (int, float)):
+                return [(st, ("const", -e.operand.value if isinstance(e.op, ast.USub) else e.operand.value))]
+            raise Unsupported("arithmetic negation of a non-constant at line %s" % e.lineno)
+        if isinstance(e, (ast.BoolOp, ast.Compare)) or (isinstance(e, ast.UnaryOp) and isinstance(e.op, ast.Not)):
             return [(s, ("const", t)) for s, t in self.cond(e, st)]
         if isinstance(e, (ast.List, ast.Tuple)):
             cur = [st]
